@@ -9,7 +9,7 @@
    Depends on the models and the regenerated constants only (not on the proofs). *)
 From Coq Require Import List Bool String ZArith NArith Arith.
 Import ListNotations.
-From HV Require Export run.C03Run model.Schema model.SchemaFast model.DocJson spec.DocJsonS spec.StaticWiringS gen.Schemas.
+From HV Require Export run.C03Run model.Schema model.SchemaFast model.DocJson model.DocJsonEnc spec.DocJsonS spec.StaticWiringS gen.Schemas.
 Open Scope nat_scope.
 
 Definition fuel := default_fuel.
@@ -77,12 +77,27 @@ Definition rts_of (c : case) : list rt :=
   | CExt _ _ => []
   end.
 
-(* the model's document, rendered, is the JSON value the implementation wrote (objects as maps) *)
+(* the model's document in the PRESENTATION the implementation chose: the order of the `edges` array and the writing
+   of the metadata table (null / list of nulls) are taken from the typed document the implementation wrote, each only
+   if admissible (the same multiset of edges / the same dictionaries as a reader takes them); the listing order of the
+   nodes is r_ord, admissible or the model has no document (C03Run.M_to_serial_in) *)
+Definition present (sm so : serialT) : serialT :=
+  Sr (s_nodes sm)
+     (if perm_eqb sedge_eqb (s_edges sm) (s_edges so) then s_edges so else s_edges sm)
+     (if list_eqb (option_eqb N.eqb) (meta_view (List.length (s_nodes sm)) (s_meta sm)) (meta_view (List.length (s_nodes sm)) (s_meta so))
+      then s_meta so else s_meta sm).
+Definition M_doc (r : rt) : option serialT :=
+  match M_to_serial_in (r_ord r) (r_h r), r_doc r with
+  | Some sm, Some so => Some (present sm so)
+  | x, _ => x
+  end.
+(* the model's document, rendered, is the JSON value the implementation wrote (objects as maps); the `encoder` string
+   is copied from the implementation (t_enc) *)
 Definition tie_ok (j : jcase) (tab : list json) (r : rt) (t : tie) : bool :=
   match t_doc t with
   | None => true
   | Some d =>
-      match M_to_serial (r_h r) with
+      match M_doc r with
       | Some s => data_equiv (doc_json (tab_get tab (j_ops j)) (tab_get tab (j_mds j)) (t_enc t) s) (def_at tab d)
       | None => false
       end
@@ -99,12 +114,16 @@ Fixpoint all_some {A} (l : list (option A)) : option (list A) :=
   | Some x :: r => match all_some r with Some xs => Some (x :: xs) | None => None end
   | None :: _ => None
   end.
+(* the Package document with the optional `encoder` member of every module as the implementation wrote it (null or a
+   string: neither C03 nor the schema says which): pkg_json_e of model/DocJsonEnc.v *)
 Definition pkg_ok (j : jcase) (tab : list json) : bool :=
   match j_pkg j with
   | None => true
   | Some (exts, d) =>
-      match all_some (map (fun r => M_to_serial (r_h r)) (rts_of (j_case j))) with
-      | Some ss => data_equiv (pkg_json (tab_get tab (j_ops j)) (tab_get tab (j_mds j)) ss (map (def_at tab) exts))
+      match all_some (map M_doc (rts_of (j_case j))) with
+      | Some ss => (List.length ss =? List.length (j_ties j)) &&
+                   data_equiv (pkg_json_e (tab_get tab (j_ops j)) (tab_get tab (j_mds j))
+                                          (combine (map t_enc (j_ties j)) ss) (map (def_at tab) exts))
                               (def_at tab d)
       | None => false
       end
